@@ -325,7 +325,7 @@ theorem issue_ok {s s' : State} {owner symbol name minUnit : String} {scale init
 theorem edit_ok {s s' : State} {owner symbol name : String} {max : Nat} {mintable : String}
     (h : stepEdit s owner symbol name max mintable = .ok s') :
     ∃ t, AMap.get? s.tokens symbol = some t ∧ owner = t.owner ∧
-      ¬ (0 < max ∧ max < supplyOf s t.minUnit / pow10 t.scale) ∧
+      ¬ (0 < max ∧ max * pow10 t.scale < supplyOf s t.minUnit) ∧
       s' = { s with tokens := AMap.set s.tokens symbol (edited t name max mintable) } := by
   unfold stepEdit at h
   split at h; · cases h
